@@ -815,15 +815,9 @@ func hasUnexported(t reflect.Type) bool {
 // the universe) that the serializer refuses with an error.
 func errShapeClass(v reflect.Value) string {
 	t := v.Type()
-	d, base := ptrDepth(t)
-	// an (empty) container of one of eino's own types is refused because of that type
-	for b := t; ; b = b.Elem() {
-		if isSchemaType(b) {
-			return "eino-schema-type"
-		}
-		if k := b.Kind(); k != reflect.Ptr && k != reflect.Slice && k != reflect.Map && k != reflect.Array {
-			break
-		}
+	_, base := ptrDepth(t)
+	if isSchemaType(base) {
+		return "eino-schema-type"
 	}
 	stripped := func(x reflect.Type) reflect.Type { _, b := ptrDepth(x); return b }
 	switch v.Kind() {
@@ -831,18 +825,26 @@ func errShapeClass(v reflect.Value) string {
 		if v.IsNil() && isContainer(base) {
 			return "nil-ptr-to-container"
 		}
-		_ = d
 	case reflect.Slice, reflect.Map:
 		// refused because of its type (an empty value of the type is refused too)?
-		if isContainer(stripped(t.Elem())) {
-			var empty reflect.Value
-			if v.Kind() == reflect.Slice {
-				empty = reflect.MakeSlice(t, 0, 0)
-			} else {
-				empty = reflect.MakeMap(t)
+		var empty reflect.Value
+		if v.Kind() == reflect.Slice {
+			empty = reflect.MakeSlice(t, 0, 0)
+		} else {
+			empty = reflect.MakeMap(t)
+		}
+		x := empty.Interface()
+		if r := roundtrip(x, x); r.class == clsErrInside {
+			// ... because of one of eino's own types among its element types
+			for b := t.Elem(); ; b = b.Elem() {
+				if isSchemaType(b) {
+					return "eino-schema-type"
+				}
+				if k := b.Kind(); k != reflect.Ptr && k != reflect.Slice && k != reflect.Map && k != reflect.Array {
+					break
+				}
 			}
-			x := empty.Interface()
-			if r := roundtrip(x, x); r.class == clsErrInside {
+			if isContainer(stripped(t.Elem())) {
 				return "container-of-containers"
 			}
 		}
